@@ -84,6 +84,11 @@ func safeHandler() *e2e.Handler {
 	h.Behave = func(c *e2e.Call) *e2e.Outcome {
 		h.Reset()
 		if c.Method == "getBig" {
+			// a modest size is served as asked (the reply is bigger than the
+			// request); a hostile one is not
+			if n, ok := c.Args[0].(int32); ok && n >= 0 && n <= 4096 {
+				return nil
+			}
 			return &e2e.Outcome{Ret: "big"}
 		}
 		return nil
@@ -396,7 +401,7 @@ func runChild(args []string) int {
 	// a quarter of the default maximum stack: runaway recursion ends in the
 	// runtime's "stack overflow" well inside the memory limit above instead of
 	// in "out of memory" (which is excluded)
-	debug.SetMaxStack(256 << 20)
+	debug.SetMaxStack(childStack)
 
 	run := ev.New("C05", tier, "exploration")
 	specs := specList(entry, proto, run.Thorough(), run.Rand(streamName(entry, proto)))
@@ -426,7 +431,11 @@ func runChild(args []string) int {
 			logged = hex.EncodeToString(in.Data)
 		}
 		fmt.Fprintf(lg, "I %d %s %s %s\n", idx, in.Class, ep.mode(idx), logged)
+		if in.Class == "edgehdr" {
+			debug.SetMaxStack(flatStack)
+		}
 		out := ep.deliver(idx, in)
+		debug.SetMaxStack(childStack)
 		switch out.kind {
 		case "ok":
 			fmt.Fprintf(lg, "K %d %s\n", idx, out.note)
